@@ -78,6 +78,11 @@ pub enum Op {
 	FinalizeInvoice { s: u16 },
 	SelfSend { w: u16, other_acct: bool, args: SendArgs },
 	Restart { w: u16 },
+	/// sender finalizes with a reply whose partial signature was corrupted in transit (must be refused)
+	FinalizeTampered { s: u16 },
+	/// wallet w pays the other wallet, which immediately spends the still-unconfirmed output back with
+	/// minimum_confirmations = 0; both transactions are posted and mined (two blocks) before anyone refreshes
+	ZeroConfRelay { w: u16 },
 	/// perform the next legal protocol step of a live slate (lock -> deliver -> finalize -> post)
 	Step { s: u16 },
 	Scan { w: u16, start: u16, delete_unconfirmed: bool },
@@ -1066,6 +1071,32 @@ impl Sim {
 					}
 				}
 			}
+			Op::FinalizeTampered { s } => {
+				match self.pick_slate(*s, |r| r.flow == Flow::Send && r.s2.is_some() && r.initiator != r.responder && r.stage == Stage::Replied && !r.is_cancelled() && (r.locked || r.late_lock)) {
+					None => OpOutcome::noop("finalize-tampered"),
+					Some(si) => {
+						let r = self.finalize_tampered(si);
+						OpOutcome {
+							effective: true,
+							kind: "finalize-tampered".into(),
+							result: Some(r),
+							slate: Some(si),
+							wallet: Some(self.slates[si].initiator),
+						}
+					}
+				}
+			}
+			Op::ZeroConfRelay { w } => {
+				let w = idx(*w, nw);
+				let r = self.zero_conf_relay(w);
+				OpOutcome {
+					effective: true,
+					kind: "zero-conf-relay".into(),
+					result: Some(r),
+					slate: None,
+					wallet: Some(w),
+				}
+			}
 			Op::Restart { w } => {
 				let w = idx(*w, nw);
 				let r = self.restart(w);
@@ -1148,6 +1179,73 @@ impl Sim {
 		r?;
 		self.finalize(si)?;
 		Ok(si)
+	}
+
+	/// Finalize with the honest reply after one bit of the counterparty's partial signature was flipped.
+	/// Returns Ok(()) if the wallet REFUSED it (the expected outcome), Err if it accepted or something else failed.
+	pub fn finalize_tampered(&mut self, si: usize) -> Result<(), String> {
+		let (w, acct) = (self.slates[si].initiator, self.slates[si].initiator_acct);
+		let mut s2 = wire(self.slates[si].s2.as_ref().ok_or("no S2")?)?;
+		let ri = s2.participant_data.iter().position(|p| p.part_sig.is_some()).ok_or("reply without partial signature")?;
+		let sig = s2.participant_data[ri].part_sig.unwrap();
+		let mut raw = [0u8; 64];
+		raw.copy_from_slice(sig.as_ref());
+		raw[40] ^= 0x10;
+		s2.participant_data[ri].part_sig = Some(grin_util::secp::Signature::from_raw_data(&raw).map_err(|e| format!("{:?}", e))?);
+		let late = self.slates[si].late_lock;
+		let before = self.output_commits(w);
+		let r = self.with_account(w, acct, |s| s.w(w).owner.finalize_tx(s.w(w).m(), &s2).map(|_| ()).map_err(|e| e.to_string()));
+		if late {
+			// a refused late-locked finalize may already have reserved (known finding C07): keep attribution right
+			let a = self.active[w];
+			self.attribute_new(w, a, &before);
+			let v = snap::view(self.w(w));
+			let id = self.slates[si].id;
+			if v.txs.iter().any(|t| t.tx_slate_id == Some(id) && t.tx_type == TxLogEntryType::TxSent) {
+				self.slates[si].locked = true;
+			}
+		}
+		match r {
+			Err(_) => Ok(()),
+			Ok(()) => Err("tampered reply was accepted".into()),
+		}
+	}
+
+	/// See Op::ZeroConfRelay.
+	pub fn zero_conf_relay(&mut self, w: usize) -> Result<(), String> {
+		if self.node_down {
+			return Err("node down".into());
+		}
+		let other = (w + 1) % self.world.wallets.len();
+		// the relay spends with minimum_confirmations = 0 and must only pick up the output it creates itself:
+		// skip when the relaying account already holds other unconfirmed outputs (their parents may never be mined)
+		{
+			let parent = self.w(other).active_parent();
+			let v = snap::view(self.w(other));
+			if v.outputs.iter().any(|o| o.root_key_id == parent && o.status == OutputStatus::Unconfirmed && !o.is_coinbase) {
+				return Err("precondition: relaying account holds unconfirmed outputs".into());
+			}
+		}
+		let a1 = SendArgs { amount: AmountPick::Frac(9000), use_all: false, ..SendArgs::default() };
+		let s1 = self.init_send(w, other, &a1)?;
+		self.lock(s1)?;
+		self.deliver(s1)?;
+		self.finalize(s1)?;
+		self.post(s1)?;
+		// the recipient spends the unconfirmed output straight away
+		let a2 = SendArgs { amount: AmountPick::AllInclFee, use_all: true, min_conf: 0, ..SendArgs::default() };
+		let s2 = self.init_send(other, w, &a2)?;
+		self.lock(s2)?;
+		self.deliver(s2)?;
+		self.finalize(s2)?;
+		// first block: the first payment (and whatever else is valid in the pool); second block: the spend
+		self.mine(None, 0xffff)?;
+		self.post(s2)?;
+		self.mine(None, 0xffff)?;
+		if self.slates[s1].mined_at.is_none() || self.slates[s2].mined_at.is_none() {
+			return Err("relay transactions were not mined".into());
+		}
+		Ok(())
 	}
 
 	pub fn views(&self) -> Vec<View> {
